@@ -33,9 +33,35 @@ Fixpoint check_from (s : pstate) (ops : list pop) (obs : list (pout * option (li
 
 Definition check_case (c : case) : bool := check_from [] (c_ops c) (c_obs c).
 
-Fixpoint mismatches_from (i : nat) (cs : list case) : list nat :=
+(* Two operations forced to overlap (the harness parks the first one inside a store call or inside the
+   outbound send and starts the second): after a sequential prefix, the observed outputs and the final
+   inbox documents must be those of one of the two sequential orders of the model — the atomicity the
+   model assumes of the handlers (one at a time under inboxLock), checked on the real service. *)
+Record conc := { k_pre : list pop; k_pre_obs : list (pout * option (list msg));
+                 k_a : pop; k_b : pop; k_xa : pout; k_xb : pout;
+                 k_snap_a : option (list msg); k_snap_b : option (list msg) }.
+
+Fixpoint state_after (s : pstate) (ops : list pop) : pstate :=
+  match ops with [] => s | o :: r => state_after (fst (step Fixed s o)) r end.
+
+Definition lin2 (s : pstate) (a b : pop) (xa xb : pout) (sa sb : option (list msg)) : bool :=
+  let '(s1, ya) := step Fixed s a in
+  let '(s2, yb) := step Fixed s1 b in
+  pout_eqb xa ya && pout_eqb xb yb && snap_eqb sa (inbox_opt s2 (op_did a)) && snap_eqb sb (inbox_opt s2 (op_did b)).
+
+Definition check_conc (k : conc) : bool :=
+  check_from [] (k_pre k) (k_pre_obs k) &&
+  let s := state_after [] (k_pre k) in
+  (lin2 s (k_a k) (k_b k) (k_xa k) (k_xb k) (k_snap_a k) (k_snap_b k)
+   || lin2 s (k_b k) (k_a k) (k_xb k) (k_xa k) (k_snap_b k) (k_snap_a k)).
+
+Inductive xcase := Seq (c : case) | Conc (k : conc).
+Definition check_xcase (x : xcase) : bool :=
+  match x with Seq c => check_case c | Conc k => check_conc k end.
+
+Fixpoint mismatches_from (i : nat) (cs : list xcase) : list nat :=
   match cs with
   | [] => []
-  | c :: r => if check_case c then mismatches_from (S i) r else i :: mismatches_from (S i) r
+  | c :: r => if check_xcase c then mismatches_from (S i) r else i :: mismatches_from (S i) r
   end.
 Definition mismatches := mismatches_from 0.
